@@ -464,6 +464,12 @@ class C08(Prop):
         out = yuv_size_cases(rng, sizes)
         # structured contents (planes whose rows or columns repeat independently of the other planes)
         out += yuv_size_cases(rng, [(w, h) for w in range(1, core.q(tier, 22, 60)) for h in range(1, core.q(tier, 10, 18))], structured=True)
+        # planes of one value (0, 255, 128, 16): nothing in the code may mistake a sample value for "not yet written"
+        for w in range(1, 13):
+            for h in range(1, 7):
+                cw, ch = (w + 1) // 2, (h + 1) // 2
+                for v in (0, 255) if tier == "quick" and (w + h) % 2 else (0, 255, 128, 16):
+                    out.append(yuv_line(w, h, [v] * (w * h), [v] * (cw * ch), [v] * (cw * ch)))
         # the empty picture at any width, up to the top of the usize range (an empty picture is a multiple of every width)
         out += [f"Y {w} - - -" for w in (0, 1, 2, 3, 4, 5, 16, 17, 176, 1 << 31, 1 << 32, (1 << 32) + 1, 1 << 61, (1 << 62) - 1,
                                          1 << 62, (1 << 62) + 1, 1 << 63, (1 << 64) - 1)]
@@ -691,6 +697,23 @@ class C10(Prop):
                 if t == "Z":
                     blocks.append("Z")
                 elif t == "D":
+                    blocks.append(f"D:{rng.randint(-2048, 2047) or 8}")
+                elif t in "HV":
+                    blocks.append(f"{t}:" + ",".join(str(rng.randint(-400, 400)) for _ in range(8)))
+                else:
+                    blocks.append("F:" + ",".join(str(rng.choice([0, 0, rng.randint(-300, 300)])) for _ in range(64)))
+            out.append(f"T {bpl} {spl} {spl * h} {rng.choice([0, 128, 255])} " + " ".join(blocks))
+        # level grids with more block columns than the plane shows (luma of widths 1..8 mod 16: blocks per line is even), two or
+        # three block rows: the row stride of the level array is blocks-per-line, not the visible count
+        for _ in range(core.q(tier, 200, 2000)):
+            bpl = rng.choice([2, 4, 6])
+            rows = rng.randint(2, 3)
+            spl = rng.randint((bpl - 2) * 8 + 1, (bpl - 1) * 8)
+            h = rng.randint((rows - 1) * 8 + 1, rows * 8)
+            blocks = []
+            for _b in range(bpl * rows):
+                t = rng.choice("DHVFF")
+                if t == "D":
                     blocks.append(f"D:{rng.randint(-2048, 2047) or 8}")
                 elif t in "HV":
                     blocks.append(f"{t}:" + ",".join(str(rng.randint(-400, 400)) for _ in range(8)))
